@@ -25,7 +25,7 @@ pub fn run(ctx: &Ctx) -> Outcome {
          Non-trivial: the call changed at least one pixel and left at least one unchanged; distinct = hash of the case.",
     );
     let secs = if ctx.quick() { 30. } else { 600. };
-    run_cases(ctx, &mut out, SubSpec { name: "fill_rect_routes", cases: ctx.n(60_000, 4_000_000), exhaustive: false, max_secs: secs }, |i, want, st| {
+    run_cases(ctx, &mut out, SubSpec { name: "fill_rect_routes", cases: ctx.n(300_000, 4_000_000), exhaustive: false, max_secs: secs }, |i, want, st| {
         let mut rng = ctx.rng("fill_rect_routes", i);
         let w = rng.int(1, 16) as i32;
         let h = rng.int(1, 16) as i32;
@@ -79,7 +79,7 @@ pub fn run(ctx: &Ctx) -> Outcome {
         co
     });
 
-    run_cases(ctx, &mut out, SubSpec { name: "clear_routes", cases: ctx.n(5_000, 300_000), exhaustive: false, max_secs: secs / 3. }, |i, want, st| {
+    run_cases(ctx, &mut out, SubSpec { name: "clear_routes", cases: ctx.n(20_000, 300_000), exhaustive: false, max_secs: secs / 3. }, |i, want, st| {
         let mut rng = ctx.rng("clear_routes", i);
         let w = rng.int(1, 16) as i32;
         let h = rng.int(1, 16) as i32;
@@ -110,7 +110,7 @@ pub fn run(ctx: &Ctx) -> Outcome {
         co
     });
 
-    run_cases(ctx, &mut out, SubSpec { name: "draw_image_at_routes", cases: ctx.n(30_000, 2_000_000), exhaustive: false, max_secs: secs }, |i, want, st| {
+    run_cases(ctx, &mut out, SubSpec { name: "draw_image_at_routes", cases: ctx.n(150_000, 2_000_000), exhaustive: false, max_secs: secs }, |i, want, st| {
         let mut rng = ctx.rng("draw_image_at_routes", i);
         let w = rng.int(1, 16) as i32;
         let h = rng.int(1, 16) as i32;
